@@ -421,7 +421,7 @@ pub fn init_process() {
             crate::report::abort_report(&msg);
         }
         LAST_PANIC.with(|l| *l.borrow_mut() = Some(msg));
-        if QUIET_PANICS.with(|q| q.get()) {
+        if QUIET_PANICS.with(|q| q.get()) && std::env::var("VERIF_LOUD").is_err() {
             return;
         }
         prev(info);
